@@ -87,14 +87,31 @@ func (f *forwarder) accept(l net.Listener) {
 		}
 		f.mu.Unlock()
 		go f.srv.ServeConn(b)
-		go func() { io.Copy(a, c); a.Close(); c.Close() }()
-		go func() { io.Copy(c, a); c.Close(); a.Close() }()
+		gone := func() { f.mu.Lock(); delete(f.conns, c); f.mu.Unlock() } // the map holds live connections only
+		go func() { io.Copy(a, c); a.Close(); c.Close(); gone() }()
+		go func() { io.Copy(c, a); c.Close(); a.Close(); gone() }()
 	}
 }
 
 // waitConn waits until the forwarder has registered at least one live connection.
 func (f *forwarder) waitConn(d time.Duration) bool {
 	return WaitUntil(d, func() bool { f.mu.Lock(); defer f.mu.Unlock(); return len(f.conns) > 0 })
+}
+
+// waitConnOf waits until the forwarder has registered the connection that comes from the given client address (the
+// connection a session uses is accepted by the kernel before the accept loop gets to see it: cutting "every connection"
+// before that would miss it, and the session would rightly not notice any loss).
+func (f *forwarder) waitConnOf(clientAddr string, d time.Duration) bool {
+	return WaitUntil(d, func() bool {
+		f.mu.Lock()
+		defer f.mu.Unlock()
+		for c := range f.conns {
+			if c.RemoteAddr().String() == clientAddr {
+				return true
+			}
+		}
+		return false
+	})
 }
 
 func (f *forwarder) isUp() bool { f.mu.Lock(); defer f.mu.Unlock(); return f.lis != nil }
@@ -347,7 +364,7 @@ func runRedial(rec *Rec, app *App, fw *forwarder, sc *RedialScenario, n int) {
 			select {
 			case <-tornReached:
 				losses++
-				fw.waitConn(300 * time.Millisecond)
+				fw.waitConnOf(sess.LocalAddr().String(), 500*time.Millisecond)
 				preLoss()
 				fw.cut()
 				detectLoss()
@@ -394,7 +411,7 @@ func runRedial(rec *Rec, app *App, fw *forwarder, sc *RedialScenario, n int) {
 		case "cut":
 			losses++
 			if sess.Health() && erpc.VerifStatus(sess) == 1 {
-				fw.waitConn(300 * time.Millisecond) // the connection the session uses must be known to the forwarder
+				fw.waitConnOf(sess.LocalAddr().String(), 500*time.Millisecond) // the connection the session uses must be known to the forwarder
 			}
 			preLoss()
 			fw.cut()
@@ -403,7 +420,7 @@ func runRedial(rec *Rec, app *App, fw *forwarder, sc *RedialScenario, n int) {
 			srvUp = false
 			losses++
 			if sess.Health() && erpc.VerifStatus(sess) == 1 {
-				fw.waitConn(300 * time.Millisecond)
+				fw.waitConnOf(sess.LocalAddr().String(), 500*time.Millisecond)
 			}
 			preLoss()
 			fw.down()
@@ -412,7 +429,7 @@ func runRedial(rec *Rec, app *App, fw *forwarder, sc *RedialScenario, n int) {
 			// an outage that needs two of the three attempts: the server is back after 1.5 redial intervals
 			losses++
 			if sess.Health() && erpc.VerifStatus(sess) == 1 {
-				fw.waitConn(300 * time.Millisecond)
+				fw.waitConnOf(sess.LocalAddr().String(), 500*time.Millisecond)
 			}
 			preLoss()
 			t0 := time.Now()
